@@ -257,3 +257,19 @@ theorem renderLoop_parts (lines : List Str) (h : templateOK lines = true) (ctx :
       simp [Except.map]
 
 end Ombott.ErrorPage
+
+namespace Ombott.ErrorPage
+
+/-- names of the replacement fields, in order -/
+def fieldNames (l : List Seg) : List Py.Str :=
+  l.filterMap fun s => match s with
+    | .field n => some n
+    | .lit _ => none
+
+/-- the fields the model's `str.format` reader finds in the formatted lines of a template -/
+def templateFieldNames (lines : List Py.Str) : Option (List Py.Str) :=
+  match templateSegs false lines with
+  | .ok l => some (fieldNames l)
+  | .error _ => none
+
+end Ombott.ErrorPage
